@@ -240,7 +240,7 @@ CHECKS["C03"] = dict(
           "strictly inside the image."),
     jobs=[
         dict(harness="touch", prop="composite", cases=T(25000, 400000), procs=T(6, 12)),
-        dict(harness="touch_asan", prop="composite", cases=T(8000, 120000), procs=T(2, 4)),
+        dict(harness="touch_asan", prop="composite", cases=T(8000, 80000), procs=T(2, 4)),
         # trapezoid entry points: the C12 harness checks every pixel against the sample-count model (so nothing outside the
         # shape changes), row padding, and runs on exactly sized buffers fenced by PROT_NONE pages
         dict(harness="traps", prop="traps", cases=T(15000, 200000), procs=T(3, 4), tag="c03_traps", tolerate=["S15", "S17"]),
@@ -288,7 +288,7 @@ CHECKS["C04"] = dict(
           "storage modified, accessor address outside the storage. Trapezoid entry points: the C12 harness on fenced canvases "
           "(plain and ASan). Non-trivial = non-empty composite region and a transformed bits source or mask."),
     jobs=[dict(harness="oob", prop="oob", cases=T(12000, 250000), procs=T(1, 1), env={"PIXMAN_DISABLE": ch}, tag="oob_chain%d" % i) for i, ch in enumerate(_CHAINS8)] + [
-        dict(harness="oob_asan", prop="oob", cases=T(10000, 200000), procs=T(3, 4)),
+        dict(harness="oob_asan", prop="oob", cases=T(10000, 120000), procs=T(3, 4)),
         dict(harness="fz_oob", prop="oob", kind="fuzz", cases=T(40000, 2000000), procs=T(3, 4), max_len=600),
         dict(harness="traps", prop="traps", cases=T(10000, 150000), procs=T(1, 2), tag="c04_traps", tolerate=["S15", "S17"]),
         dict(harness="traps_asan", prop="traps", cases=T(4000, 60000), procs=T(1, 2), tag="c04_traps_asan", tolerate=["S15", "S17"]),
@@ -345,6 +345,9 @@ CHECKS["C09"] = dict(
         # "treated as opaque only if every sample has alpha 1": solids with 16-bit alpha 0xff00..0xfffe vs the same colour as a
         # 1x1 repeating rgba_float image, as source or mask, on 10 bpc / sRGB / float destinations
         dict(harness="opaque", prop="nearopaque", cases=T(30000, 400000), procs=T(2, 4)),
+        # the same simplification inside pixman_image_fill_boxes (OVER with an opaque colour becomes SRC / a direct fill):
+        # C19's oracle "fill_boxes == compositing a solid over each box", which includes 16-bit alphas 0xff00..0xfffe
+        dict(harness="touch", prop="fill", cases=T(8000, 100000), procs=T(2, 3), tag="c09_fill"),
     ],
     floor=T(150000, 3000000), nt_floor=T(40000, 600000),
     assumptions=["r5g6b5 vs 8888 source presentations are compared in the 8-bit pipeline only (in floating point r5g6b5 is widened as v/31, the 8888 copy holds replicated 8-bit values)",
